@@ -830,9 +830,30 @@ func (e *Engine) panicViolation(tp targetPanic, stack []string) {
 	r := e.solver.Check(e.OblTO)
 	m := map[string]string{}
 	var order []string
+	if r == "unknown" {
+		// the incremental process gave up (non-linear arithmetic): ask a fresh solver the same question
+		r2, vals := SolveStandalone("z3-new", e.tt, e.pcTerms(), e.inputs, time.Duration(e.OblTO)*time.Millisecond)
+		e.Fallbacks++
+		if r2 == "unsat" {
+			return // infeasible after all
+		}
+		if r2 == "sat" {
+			for i, in := range e.inputs {
+				v, ok := vals[in.id]
+				if !ok {
+					v = big.NewInt(0)
+				}
+				m[e.inputNames[i]] = "0x" + v.Text(16)
+				order = append(order, e.inputNames[i])
+			}
+			e.addFreeChoices(m)
+			r = "sat-standalone"
+		}
+	}
 	if r == "sat" {
 		m, order = e.modelNow()
 		e.addFreeChoices(m)
+	} else if r == "sat-standalone" {
 	} else if r != "unsat" {
 		e.Inconclusive = append(e.Inconclusive, "panic path: solver answered "+r)
 		return
